@@ -68,7 +68,8 @@ def write_inputs(case, d):
     os.makedirs(d, exist_ok=True)
     evs, pouts = [], []
     for i, f in enumerate(case["ev_files"]):
-        p = os.path.join(d, f"evidence{i}.txt")
+        # file names in DESCENDING lexicographic order along the command line (run_C, run_B, ...): the order given is what counts
+        p = os.path.join(d, f"evidence_run_{chr(ord('Z') - i)}.txt")
         with open(p, "w", newline="") as fh:
             w = csv.writer(fh, delimiter="\t")
             perm = f.get("perm") or list(range(len(EV_COLS)))
@@ -77,7 +78,7 @@ def write_inputs(case, d):
                 w.writerow([r[k] for k in perm])
         evs.append(p)
     for i, f in enumerate(case["pouts"]):
-        p = os.path.join(d, f"pout{i}.tab")
+        p = os.path.join(d, f"pout_{chr(ord('Z') - i)}.tab")
         with open(p, "w", newline="") as fh:
             w = csv.writer(fh, delimiter="\t")
             w.writerow(["PSMId", "score", "q-value", "posterior_error_prob", "peptide", "proteinIds"])
